@@ -53,6 +53,9 @@ def run_case(case):
     building = [0]                       # index of the instance under construction (read by the probe manager)
     rid_of: dict[int, int] = {}          # id(Request object) -> sequence number: requests are told apart by IDENTITY
     sent: list = []                      # keeps the objects alive (ids stay unique)
+    grp_of: dict[int, int] = {}          # request sequence number -> group label AT SEND TIME
+    shared: dict[int, set] = {}          # the caller's ONE mutable id set per group (passed uncopied, updated in place)
+    shared_rids: dict[int, list] = {}    # requests that carry the shared set of a group
     modes: dict[int, list] = {}
     gates: dict[int, asyncio.Future] = {}
     loop = async_solipsism.EventLoop()
@@ -73,8 +76,8 @@ def run_case(case):
             pass
 
         def distribute_power(self, request):
-            g = GROUP_OF[frozenset(request.component_ids)]
             r = rid_of[id(request)]
+            g = grp_of[r]
             logs[self.k].append(["S", g, r, now_us()])
             return self._go(g, r)
 
@@ -117,7 +120,7 @@ def run_case(case):
             if request.component_ids is None:      # malformed: frozenset(None) raises in _run -> the Actor restarts _run
                 log.append(["R", "bad", now_us()])
             else:
-                log.append(["A", GROUP_OF[frozenset(request.component_ids)], rid_of[id(request)], now_us()])
+                log.append(["A", grp_of[rid_of[id(request)]], rid_of[id(request)], now_us()])
             return request
 
         def close(self):
@@ -207,8 +210,17 @@ def run_case(case):
                     ids_obj.add(i_)
                 if rid % 3 == 0:
                     ids_obj = frozenset(ids_obj)
+                if len(step) > 5 and step[5] == "shared":
+                    # the caller passes its own long-lived mutable set, uncopied (only while it denotes the group)
+                    sh = shared.setdefault(step[1], set(GROUPS[step[1]]))
+                    if sh == GROUPS[step[1]]:
+                        ids_obj = sh
+                        shared_rids.setdefault(step[1], []).append(rid)
+                if val is None:
+                    val = rid
                 req_obj = Request(Power.from_watts(float(val)), ids_obj)
                 rid_of[id(req_obj)] = rid
+                grp_of[rid] = step[1]
                 sent.append(req_obj)
                 sent_cnt[cur] = sent_cnt.get(cur, 0) + 1
                 await sender.send(req_obj)
@@ -224,6 +236,26 @@ def run_case(case):
                     await asyncio.sleep(step[1] / 1000.0)
                 log.append(["R", "stopstart", now_us()])
                 actor.start()
+            elif op == "mut":              # the caller updates its shared id set of group step[1] IN PLACE
+                sh = shared.setdefault(step[1], set(GROUPS[step[1]]))
+                for _ in range(3):
+                    await asyncio.sleep(0)
+                arrived_ = {e[2] for l in logs for e in l if e[0] == "A"}
+                if any(r_ not in arrived_ for r_ in shared_rids.get(step[1], [])):
+                    pass       # a request carrying the set is still unread: what the distributor would receive is a different
+                               # request -- outside the property (the set is updated only while its requests are in flight/pending)
+                elif step[2] == 0:
+                    sh.discard(min(sh) if sh else 0)
+                elif step[2] == 1:
+                    sh.add(99)
+                else:                      # ... into the ids of another group
+                    other = GROUPS[step[1] % 3 + 1]
+                    sh.clear()
+                    sh.update(other)
+            elif op == "unmut":            # ... and back
+                sh = shared.setdefault(step[1], set(GROUPS[step[1]]))
+                sh.clear()
+                sh.update(GROUPS[step[1]])
             elif op == "rel":              # releases the gate of group step[1] in every instance
                 for (k_, g_), fut in list(gates.items()):
                     if g_ == step[1] and not fut.done():
@@ -391,6 +423,7 @@ def gen_case(rng, ngroups=None, nreq=None):
     # request VALUES: all distinct, or drawn from a small set so that equal requests (A,A / A,B,A / A,B,B) occur
     values = rng.choice([None, None, [5], [5, 6], [5, 6], [5, 6, 7]])
     restarts = rng.random() < 0.3
+    sharing = rng.random() < 0.3      # the caller keeps one mutable id set per group and updates it in place
     steps = []
     sent = 0
     while sent < n:
@@ -403,8 +436,13 @@ def gen_case(rng, ngroups=None, nreq=None):
                 mode = rng.choice(["sleep_ok", "sleep_exc", "instant_ok"])
             else:
                 mode = rng.choice(MODES)
-            steps.append(["req", g, mode, rng.choice([1, 10, 10, 50, 200])] + ([rng.choice(values)] if values else []))
+            st_ = ["req", g, mode, rng.choice([1, 10, 10, 50, 200])] + ([rng.choice(values)] if values else [])
+            if sharing and rng.random() < 0.7:
+                st_ = st_ + [None] * (5 - len(st_)) + ["shared"]
+            steps.append(st_)
             sent += 1
+        elif sharing and x < 0.6:
+            steps.append(rng.choice([["mut", rng.randint(1, k), rng.randrange(3)], ["unmut", rng.randint(1, k)]]))
         elif restarts and x < 0.58:
             # the receive loop restarts (malformed request -> Actor restart after RESTART_DELAY; or stop() + start())
             if rng.random() < 0.5:
@@ -461,6 +499,10 @@ def boundary_cases():
         {"steps": [R(1, "gate_ok") + [5], Y(), R(1, "gate_ok") + [5], Y(), ["rel", 1], Y()]},
         {"steps": [R(1, "gate_ok") + [5], Y(), R(1, "gate_ok") + [6], R(1, "gate_ok") + [5], Y(), ["rel", 1], Y()]},
         {"steps": [R(1, "gate_ok") + [5], Y(), R(1, "gate_ok") + [6], R(1, "gate_ok") + [6], Y(), ["rel", 1], Y()]},
+        # the caller's own mutable id set, passed uncopied, is updated in place while its request is in flight / pending
+        {"steps": [R(1, "gate_ok") + [None, "shared"], Y(), ["mut", 1, 0], ["rel", 1], Y(), ["unmut", 1], R(1, "gate_ok") + [None, "shared"], Y(), ["rel", 1], Y()]},
+        {"steps": [R(1, "gate_ok") + [None, "shared"], Y(), R(1, "gate_ok") + [None, "shared"], ["mut", 1, 2], Y(), ["rel", 1], Y(), R(2, "gate_ok"), Y(), ["rel", 1], ["rel", 2], Y()]},
+        {"steps": [R(2, "sleep_exc", 50) + [None, "shared"], ["mut", 2, 1], ["sleep", 60], R(2, "instant_ok"), Y()]},
         # the receive loop restarts while a distribution is in flight and a request is pending
         {"steps": [R(1, "gate_ok"), Y(), R(1, "gate_ok"), Y(), ["bad"], Y(), R(1, "gate_ok"), ["sleep", 2100], ["rel", 1], Y(), R(1, "instant_ok")]},
         {"steps": [R(1, "gate_ok"), Y(), R(1, "gate_ok"), Y(), ["stopstart", 10], Y(), R(1, "gate_exc"), Y(), ["rel", 1], Y()]},
@@ -674,6 +716,8 @@ class DistStream(Stream):
                     busy.discard(ev[1])
         if coalesced:
             out.append("request_waited")
+        if any(s_[0] == "mut" for s_ in case["steps"]):
+            out.append("caller_mutates_shared_id_set")
         # equal values: an arriving request EQUAL to the one in flight / to the pending one (A,A / A,B,A / A,B,B)
         val = {}
         k = 0
